@@ -46,6 +46,13 @@ inline void gen_frame(const Content &c, int i, std::vector<uint16_t> &Y, std::ve
         for (int y = 0; y < H; y++) for (int x = 0; x < W; x++) { int gy = (y + scroll) >> 3, gx = x >> 3; int gi = (gx * 7 + gy * 3 + (int)seed) & 7; int on = glyph[gi][(y + scroll) & 7][x & 7]; Y[(size_t)y * W + x] = clampv((on ? 235 : 16) << sh); }
         for (int y = 0; y < ch; y++) for (int x = 0; x < cw; x++) { int gy = ((2 * y + scroll) >> 3); U[(size_t)y * cw + x] = clampv(((gy & 1) ? 90 : 160) << sh); V[(size_t)y * cw + x] = clampv(128 << sh); }
     }
+    else if (k == "text_cfl") { // screen content with few colours whose chroma is an affine function of luma: palette and chroma-from-luma both attractive
+        Rng t(seed * 57 + 9); uint8_t glyph[8][8][8]; for (auto &g : glyph) for (auto &row : g) for (auto &p : row) p = (uint8_t)(t.next() & 3);
+        static const int lv[4] = {32, 96, 160, 224}; int scroll = (i / 2) * 8;
+        auto lum = [&](int x, int y) { int gy = (y + scroll) >> 3, gx = x >> 3; int gi = (gx * 5 + gy * 3 + (int)seed) & 7; return lv[glyph[gi][(y + scroll) & 7][x & 7]]; };
+        for (int y = 0; y < H; y++) for (int x = 0; x < W; x++) Y[(size_t)y * W + x] = clampv(lum(x, y) << sh);
+        for (int y = 0; y < ch; y++) for (int x = 0; x < cw; x++) { int l = lum(2 * x, 2 * y); U[(size_t)y * cw + x] = clampv((64 + l / 2) << sh); V[(size_t)y * cw + x] = clampv((220 - l * 2 / 3) << sh); }
+    }
     else if (k == "rails") { // noise, then flat, then noise: drives rate control to its rails
         int phase = (i / 4) % 3;
         if (phase == 1) { for (auto &v : Y) v = clampv(c.val << sh); for (auto &v : U) v = clampv(128 << sh); for (auto &v : V) v = clampv(128 << sh); }
